@@ -163,24 +163,30 @@ def run(rep: Report, tier: str):
 
     # ---- context manager: what is saved, what is restored
     saved: Dict[str, str] = {}  # self attribute (or attr[i]) -> binding it was saved from
+    saved_where: Dict[str, set] = {}  # slot -> {"init", "enter" (on every path), "enter?" (on some paths)}
     for m in (init, enter):
         if m is None:
             continue
+        gm = CFG(m.node)
         for n in body_walk(m.node):
             if isinstance(n, ast.Assign):
+                tag = "init" if m is init else ("enter" if gm.always_passes(n) else "enter?")
                 for t in n.targets:
                     d = dotted(t)
                     if d and d.startswith("self."):
                         if dotted(n.value) in BINDINGS:
                             saved[d] = dotted(n.value)
+                            saved_where.setdefault(d, set()).add(tag)
                         elif isinstance(n.value, (ast.Tuple, ast.List)):
                             for i, e in enumerate(n.value.elts):
                                 if dotted(e) in BINDINGS:
                                     saved[f"{d}[{i}]"] = dotted(e)
+                                    saved_where.setdefault(f"{d}[{i}]", set()).add(tag)
                         elif isinstance(n.value, ast.Dict):
                             for k, e in zip(n.value.keys, n.value.values):
                                 if dotted(e) in BINDINGS and isinstance(k, ast.Constant):
                                     saved[f"{d}[{k.value!r}]"] = dotted(e)
+                                    saved_where.setdefault(f"{d}[{k.value!r}]", set()).add(tag)
     restored: Dict[str, str] = {}  # binding -> saved slot it is restored from
     gx = CFG(exit_.node)
     pdx = gx.post_dominators().get(gx.entry, set())
@@ -211,7 +217,14 @@ def run(rep: Report, tier: str):
         rep.bad("C12.exit-unconditional", exit_.qualname, "swallows-exception", f"__exit__ may return `{src(truthy[0].value)}`: a truthy value suppresses the exception raised inside the context (e.g. UnsafeFileError)", exit_.file, truthy[0].lineno)
     else:
         rep.ok("C12.exit-unconditional", exit_.qualname, "__exit__ returns None/False: exceptions propagate", f"{exit_.file}:{exit_.line}")
-    # where the save happens: saving in __init__ is accepted (documented use is `with fickling.check_safety():`)
+    # where the save happens: the snapshot must be what is in force when the context is ENTERED.  A manager object can be
+    # created long before it is used (`cm = fickling.check_safety(); activate_safe_ml_environment(); with cm: ...`): a
+    # snapshot taken at construction restores the bindings of that earlier moment and drops whatever was armed in between.
+    stale = sorted(b for b, slot in restored.items() if "enter" not in saved_where.get(slot, set()))
+    if stale:
+        rep.bad("C12.ctx-restores-what-can-change", ctx.qualname, "snapshot-not-at-entry:" + ",".join(stale), f"{stale} are restored on exit from a snapshot that is not (always) taken in __enter__ (taken in: {sorted(set().union(*[saved_where.get(restored[b], set()) for b in stale]))}): `cm = check_safety(); activate_safe_ml_environment(); with cm: ...` leaves the block with the ML environment silently removed", ctx.module.relpath, enter.line)
+    elif restored:
+        rep.ok("C12.ctx-restores-what-can-change", ctx.qualname, "the restored snapshot is taken in __enter__ on every path (what was in force on entry)", f"{ctx.module.relpath}:{enter.line}")
     clob = set(W["ctx.__enter__"])
     miss = sorted(clob - set(restored))
     if miss:
